@@ -417,3 +417,104 @@ def translate_fn(repo, spec: FnSpec) -> Tuple[str, dict]:
             f"sha256 {sha}).\n{spec.doc} -/\n"
             f"def {spec.name} (lg ex : K → K) {params} : {rty} :=\n{lets}  (" + ", ".join(terms) + ")\n")
     return lean, dict(source=spec.source, lines=[fn.lineno, fn.end_lineno], sha256=sha)
+
+
+@dataclass
+class CpsSpec:
+    """a scalar function with early returns / raises: translated in continuation style (`if c then … else …`, the statements
+    after an `if` are continued in both arms); result `Option (K × K)` (`none` = the function raises ValueError)"""
+    source: str
+    func: str
+    name: str
+    params: Sequence[Tuple[str, str, str]]        # (python parameter, lean binder text, LIN | "BOOL" | "OTHER")
+    conds: Dict[str, str]                         # exact text of a condition -> Lean proposition
+    atoms: Dict[str, str] = field(default_factory=dict)   # exact text of a real-valued atom (e.g. `rescale_bounds[0]`) -> Lean term
+    doc: str = ""
+
+
+def _lit(v) -> str:
+    from fractions import Fraction
+    q = Fraction(v).limit_denominator(1 << 20)
+    if float(q) != float(v):
+        raise TranslationError(f"literal {v!r} is not a small rational")
+    nat = lambda k: f"({k} : K)" if k in (0, 1) else f"(({k} : Nat) : K)"
+    t = nat(abs(q.numerator)) if q.denominator == 1 else f"({nat(abs(q.numerator))} / {nat(q.denominator)})"
+    return t if q >= 0 else f"(-{t})"
+
+
+def translate_cps(repo, spec: CpsSpec) -> Tuple[str, dict]:
+    from pathlib import Path
+    import hashlib
+    text = (Path(repo) / spec.source).read_text()
+    fn = find_function(ast.parse(text), spec.func, None)
+    got = [a.arg for a in fn.args.args]
+    if got != [p for p, _, _ in spec.params] or fn.args.vararg or fn.args.kwarg or fn.args.kwonlyargs:
+        raise TranslationError(f"{spec.func}: signature {got} differs from the modelled one {[p for p, _, _ in spec.params]}")
+    ver: Dict[str, int] = {}
+
+    def fail(node, why):
+        raise TranslationError(f"{spec.func}: {why}: {ast.unparse(node)[:90]!r}")
+
+    def ex(e, env) -> str:
+        t = ast.unparse(e)
+        if t in spec.atoms:
+            return spec.atoms[t]
+        if isinstance(e, ast.Name):
+            if e.id in env:
+                return env[e.id]
+            fail(e, "undeclared or non-real name")
+        if isinstance(e, ast.Constant) and isinstance(e.value, (int, float)) and not isinstance(e.value, bool):
+            return _lit(e.value)
+        if isinstance(e, ast.UnaryOp) and isinstance(e.op, ast.USub):
+            if isinstance(e.operand, ast.Constant):
+                return _lit(-e.operand.value)
+            return f"(-{ex(e.operand, env)})"
+        if isinstance(e, ast.BinOp) and isinstance(e.op, (ast.Add, ast.Sub, ast.Mult, ast.Div)):
+            op = {ast.Add: "+", ast.Sub: "-", ast.Mult: "*", ast.Div: "/"}[type(e.op)]
+            return f"({ex(e.left, env)} {op} {ex(e.right, env)})"
+        fail(e, "expression outside the fragment")
+
+    def only_logging(body):
+        return all(isinstance(s_, ast.Expr) and isinstance(s_.value, ast.Call) and ast.unparse(s_.value.func).startswith("logger.")
+                   for s_ in body)
+
+    def block(stmts, env, ind) -> str:
+        pad = "  " * ind
+        if not stmts:
+            raise TranslationError(f"{spec.func}: control reaches the end of the function without a return")
+        st, rest = stmts[0], stmts[1:]
+        if isinstance(st, ast.Expr) and isinstance(st.value, ast.Constant):
+            return block(rest, env, ind)
+        if isinstance(st, ast.Raise):
+            if st.exc is not None and ast.unparse(st.exc).startswith("ValueError("):
+                return f"{pad}none"
+            fail(st, "raise of something else than ValueError")
+        if isinstance(st, ast.Return) and isinstance(st.value, ast.Tuple) and len(st.value.elts) == 2:
+            return f"{pad}some ({ex(st.value.elts[0], env)}, {ex(st.value.elts[1], env)})"
+        if isinstance(st, ast.Assign) and len(st.targets) == 1 and isinstance(st.targets[0], ast.Name):
+            name = st.targets[0].id
+            k = ver.get(name, 0) + 1
+            ver[name] = k
+            env2 = dict(env)
+            env2[name] = f"{name}{k}"
+            return f"{pad}let {name}{k} : K := {ex(st.value, env)}\n" + block(rest, env2, ind)
+        if isinstance(st, ast.If):
+            c = ast.unparse(st.test)
+            if only_logging(st.body) and not st.orelse and c in spec.conds:
+                return block(rest, env, ind)
+            if c not in spec.conds:
+                fail(st.test, "condition outside the table")
+            a = block(list(st.body) + rest, env, ind + 1)
+            b = block(list(st.orelse) + rest, env, ind + 1)
+            return f"{pad}if {spec.conds[c]} then\n{a}\n{pad}else\n{b}"
+        fail(st, "statement outside the fragment")
+
+    env = {py: ln.split()[0].lstrip("(") for py, ln, ty in spec.params if ty == LIN}
+    body = block(list(fn.body), env, 1)
+    seg = ast.get_source_segment(text, fn) or ""
+    sha = hashlib.sha256(seg.encode()).hexdigest()[:16]
+    binders = " ".join(ln for _, ln, _ in spec.params)
+    lean = (f"/-- GENERATED by harness/pylog2lean.py (continuation style) from `{spec.source}`, `{spec.func}` "
+            f"(lines {fn.lineno}–{fn.end_lineno}, sha256 {sha}).\n{spec.doc} -/\n"
+            f"def {spec.name} {binders} : Option (K × K) :=\n{body}\n")
+    return lean, dict(source=spec.source, lines=[fn.lineno, fn.end_lineno], sha256=sha)
